@@ -3,4 +3,5 @@ pub mod guard;
 pub mod sfnt;
 pub mod corpus;
 pub mod mutate;
+pub mod fontkit;
 pub use engine::*;
